@@ -130,7 +130,9 @@ def step (args : List String) : String :=
     | .error e => "err " ++ e.toString
     | .ok p =>
       match kingSq p.b p.wtm, kingSq p.b (!p.wtm) with
-      | some k, some ok => if Texel.genWFb p k && Texel.kingsApartB p k then texelDump p k ok else "err hypotheses-of-the-generator-theorems-fail"
+      | some k, some ok =>
+        if Texel.genWFb p k && Texel.kingsApartB p k && Texel.gcWFb p ok then texelDump p k ok
+        else "err hypotheses-of-the-generator-theorems-fail"
       | _, _ => "err no-king"
   | ["tatk", pc, s, occ] =>
     match parseNat? pc, parseNat? s, parseNat? occ with
